@@ -1041,3 +1041,7 @@ mod tests {
         );
     }
 }
+
+#[cfg(scylla_verif)]
+#[allow(missing_docs)]
+pub use tablets::verif_hooks as verif_tablets;
